@@ -147,8 +147,39 @@ PRPrograms(z) == {
   << <<SRock(0, Var("x"), <<N(1), N(2)>>), Say(Idx(Pro, N(0))), SAssign(0, Idx(Pro, N(1)), "none", <<N(9)>>), Say(Idx(Var("x"), N(1))),
        Say(Bin("lt", Idx(Pro, N(0)), <<N(5)>>)), SRoll(0, Pro, Var("y")), Say(Var("y")), Say(Eq(Pro, N(1)))>> >>,
   << <<SPStr(0, Var("x"), "text"), Say(Eq(Pro, S("text"))), SPStr(0, Pro, "more text"), Say(Var("x")), SMut(0, "cut", Pro, ENone, ENone), Say(Var("x"))>> >>,
-  << <<Put(Lit(Bool(TRUE)), "x"), SWhile(0, Eq(Pro, Lit(Bool(TRUE))), <<Put(Lit(Bool(FALSE)), "x")>>), Say(Var("x")), Say(Pro)>> >>
+  << <<Put(Lit(Bool(TRUE)), "x"), SWhile(0, Eq(Pro, Lit(Bool(TRUE))), <<Put(Lit(Bool(FALSE)), "x")>>), Say(Var("x")), Say(Pro)>> >>,
+  \* after `x at y` the last name mentioned is y (the array is read first, the subscript second)
+  << <<SRock(0, Var("x"), <<N(10), N(20), N(30)>>), Put(N(1), "y"), Say(Idx(Var("x"), Var("y"))), Say(Pro), SInc(0, Pro, 1), Say(Var("y")),
+       SIf(0, Eq(Idx(Var("x"), Var("y")), N(30)), <<Say(Pro)>>, FALSE, <<>>), Put(Idx(Var("x"), Var("y")), "z"), SInc(0, Pro, 5), Say(Var("z")), Say(Var("y"))>> >>,
+  << <<SFunc(0, "f", <<"p", "q">>, <<SIf(0, Eq(Idx(Var("p"), Var("q")), N(20)), <<Ret(Pro)>>, FALSE, <<>>), Ret(N(0))>>)>>,
+     <<SRock(0, Var("x"), <<N(10), N(20)>>), Say(Call("f", <<Var("x"), N(1)>>)), Say(Call("f", <<Var("x"), N(0)>>))>> >>
 }
+
+(* CT: block structure as TEXT (C04): what belongs to which branch or loop is decided by the parser (blank lines, else, the   *)
+(* end of a function), so these programs go through the renderer and the real front end                                        *)
+CTIf(c, th, el) == SIf(0, c, th, TRUE, el)
+CTPrograms(z) ==
+  LET TT == Lit(Bool(TRUE)) FF == Lit(Bool(FALSE)) IN {
+  \* an else branch holding a nested if/else and more statements after it
+  << <<CTIf(c1, <<SayS("one")>>, <<CTIf(c2, <<SayS("two")>>, <<SayS("three")>>), SayS("still else")>>), SayS("same block")>>, <<SayS("next block")>> >>
+     : c1 \in {TT, FF}, c2 \in {TT, FF} }
+  \cup {
+  \* an else-if chain inside a loop: its closing blank line must not close the loop
+  << <<Put(N(0), "i"), SWhile(0, Lt(Var("i"), N(4)), <<SInc(0, Var("i"), 1),
+         CTIf(Eq(Var("i"), N(1)), <<SayS("a")>>, <<CTIf(Eq(Var("i"), N(2)), <<SayS("b")>>, <<SayS("c")>>)>>), Say(Var("i"))>>), SayS("end")>> >>,
+  \* nested if/else in the then branch, loops inside branches, if without else inside else
+  << <<Put(N(0), "i"), SUntil(0, Eq(Var("i"), N(3)), <<SInc(0, Var("i"), 1),
+         CTIf(Lt(Var("i"), N(2)), <<CTIf(Eq(Var("i"), N(1)), <<SayS("a")>>, <<SayS("b")>>), SayS("then tail")>>,
+              <<SIf(0, Eq(Var("i"), N(3)), <<SayS("three")>>, FALSE, <<>>), SayS("else tail")>>)>>), SayS("end")>> >>,
+  << <<SFunc(0, "f", <<"p">>, <<CTIf(Var("p"), <<Ret(S("t"))>>, <<CTIf(Eq(Var("p"), N(0)), <<Ret(S("zero"))>>, <<Ret(S("f"))>>)>>)>>)>>,
+     <<Say(Call("f", <<N(1)>>)), Say(Call("f", <<N(0)>>)), Say(Call("f", <<Lit(Null)>>))>> >>,
+  << <<SFunc(0, "f", <<"p">>, <<SWhile(0, TT, <<CTIf(Var("p"), <<SBreak(0)>>, <<CTIf(TT, <<Ret(S("inner"))>>, <<SayS("no")>>), SayS("no")>>)>>), Ret(S("after loop"))>>)>>,
+     <<Say(Call("f", <<N(1)>>)), Say(Call("f", <<N(0)>>))>> >>,
+  << <<Put(N(0), "i"), SWhile(0, Lt(Var("i"), N(3)), <<SInc(0, Var("i"), 1), SIf(0, Eq(Var("i"), N(2)), <<SContinue(0)>>, FALSE, <<>>),
+         Put(N(0), "j"), SWhile(0, Lt(Var("j"), N(2)), <<SInc(0, Var("j"), 1), CTIf(Eq(Var("j"), N(1)), <<SContinue(0)>>, <<SBreak(0)>>), SayS("never")>>), Say(Var("i"))>>)>>,
+     <<SayS("end")>> >>,
+  << <<CTIf(FF, <<>>, <<SayS("else of empty then")>>), CTIf(TT, <<SayS("then")>>, <<>>), SayS("after")>> >>
+  }
 
 (* LT: programs for the linter as TEXT: constant assignments of every form at every depth, repeated mentions, several blocks *)
 LTPrograms(z) == {
@@ -170,6 +201,10 @@ PDef == SFunc(0, "ff", <<"x">>, <<SRock(0, Var("x"), <<S("n")>>), SRock(0, Pro, 
                                   SAssign(0, Idx(Pro, S("pk")), "none", <<N(8)>>), Ret(Var("x"))>>)
 AROps == {
   Put(Call("ff", <<Var("x")>>), "y"),
+  \* the whole list is evaluated before anything is appended; the subscript may change the array it is applied to
+  SRock(0, Var("x"), <<N(5), PlusE(Var("x"), N(1))>>),
+  SRock(0, Var("y"), <<Var("x"), Var("y")>>),
+  Say(Idx(Var("x"), RollE(Var("x")))),
   SAssign(0, Idx(Var("x"), N(0)), "none", <<N(1)>>),
   SAssign(0, Idx(Var("x"), N(2)), "none", <<S("s")>>),
   SAssign(0, Idx(Var("x"), S("k")), "none", <<N(2)>>),
@@ -267,7 +302,7 @@ OnceStmts == {
   STurn(0, "up", OnceTarget), STurn(0, "nearest", OnceTarget),                       \* (build / knock take a plain variable only)
   SAssign(0, OnceTarget, "plus", <<N(1)>>), SAssign(0, OnceTarget, "times", <<N(2), N(3)>>), SAssign(0, OnceTarget, "none", <<N(9)>>),
   SMut(0, "cast", OnceTarget, ENone, ENone), SMut(0, "cut", S("a,b"), OnceTarget, S(",")), SMut(0, "cast", S("12"), OnceTarget, ENone),
-  SRock(0, OnceTarget, <<N(1)>>), SRoll(0, OnceTarget, Var("y")), SRoll(0, Var("q"), OnceTarget), SListen(0, OnceTarget),
+  SRock(0, OnceTarget, <<N(1)>>), SRock(0, OnceTarget, <<N(7), N(8)>>), SRoll(0, OnceTarget, Var("y")), SRoll(0, Var("q"), OnceTarget), SListen(0, OnceTarget),
   SPNum(0, OnceTarget, N(5)), SPStr(0, OnceTarget, "txt"), Say(OnceTarget),
   SAssign(0, Idx(OnceTarget, RollE(Var("q"))), "none", <<N(4)>>) }
 OncePrograms == { << <<SRock(0, Var("q"), <<N(0), N(1), N(0)>>), SRock(0, Var("a"), <<Lit(Fin(96)), Lit(Fin(4192))>>), st, Say(Var("a")), Say(Var("q")), Say(Var("y"))>> >>
